@@ -23,6 +23,8 @@ pub enum Item {
     Filter(String),
     Test(String),
     Func(String),
+    /// `{{ x }}`: prints a context variable (observes the autoescape flag); no descriptor op
+    Var,
 }
 
 #[derive(Clone, Debug, PartialEq)]
@@ -62,6 +64,7 @@ fn items_src(items: &[Item], out: &mut String) {
             Item::Filter(f) => out.push_str(&format!("{{% set _v = 1 | {f} %}}")),
             Item::Test(t) => out.push_str(&format!("{{% if 1 is {t} %}}{{% endif %}}")),
             Item::Func(f) => out.push_str(&format!("{{% set _w = {f}() %}}")),
+            Item::Var => out.push_str("{{ x }}"),
         }
     }
 }
@@ -76,7 +79,7 @@ pub fn source_of(t: &Tpl) -> String {
     }
     items_src(&t.body, &mut s);
     for (c, body) in &t.comps {
-        s.push_str(&format!("{{% component {c}() %}}"));
+        s.push_str(&format!("{{% component {c}(v = {}) %}}", body.len()));
         items_src(body, &mut s);
         s.push_str(&format!("{{% endcomponent {c} %}}"));
     }
@@ -114,6 +117,7 @@ fn chunk_of(items: &[Item], c: &mut Compiled) -> String {
             Item::Filter(f) => c.filters.push(f.clone()),
             Item::Test(t) => c.tests.push(t.clone()),
             Item::Func(f) => c.funcs.push(f.clone()),
+            Item::Var => {}
         }
     }
     format!("[{}]", ops.join("; "))
